@@ -219,16 +219,18 @@ def create_redist_dict(
         reverse=True,
     )
     realloc = {}
-    for pair in sorted_scores:
+    for i, pair in enumerate(sorted_scores):
+      # Sum the remaining scores afresh: subtracting the scores handed out so
+      # far from a running total cancels catastrophically when one score
+      # dominates, leaving a garbage (even negative) total.
+      total_score = sum(score for _, score in sorted_scores[i:])
       if is_outlier(pair[1], total_score, group_resource, dim - 1):
         realloc.update({pair[0]: dim})
         group_resource -= (dim - 1)
-        total_score -= pair[1]
       else:
         unit_rsc = group_resource / total_score if total_score else 0.0
         realloc.update({pair[0]: rd(pair[1] * unit_rsc)})
         group_resource -= (rd(pair[1] * unit_rsc) - 1)
-        total_score -= pair[1]
 
     for key in realloc:
       assert realloc[key] <= dim, (key, realloc[key], dim)
